@@ -190,7 +190,13 @@ func checkAttempt(c Case, s *proj.Server, h *handler.Server, recoversP *atomic.I
 		req.Headers["Accept"] = c.Accept
 	}
 	var hr *http.Request
-	if c.Transport == "urlencoded" {
+	if c.Transport == "formjson" {
+		// the JSON request object posted as a form: UrlEncodedForm decodes it like the POST transport
+		r2 := req
+		r2.Transport = "post"
+		hr = r2.Build()
+		hr.Header.Set("Content-Type", "application/x-www-form-urlencoded")
+	} else if c.Transport == "urlencoded" {
 		// this transport takes the query text as the body
 		r2 := req
 		r2.Transport = "graphql"
@@ -256,7 +262,7 @@ func checkAttempt(c Case, s *proj.Server, h *handler.Server, recoversP *atomic.I
 	}
 	supported := false
 	for _, n := range c.Order {
-		if n == c.Transport {
+		if n == c.Transport || (n == "urlencoded" && c.Transport == "formjson") {
 			supported = true
 		}
 	}
@@ -293,7 +299,7 @@ func checkAttempt(c Case, s *proj.Server, h *handler.Server, recoversP *atomic.I
 	switch {
 	case c.Damage == "parse" || c.Damage == "validation":
 		selectable = false
-	case c.HasOpName && c.OpName != "" && (c.Transport == "get" || c.Transport == "post"):
+	case c.HasOpName && c.OpName != "" && (c.Transport == "get" || c.Transport == "post" || c.Transport == "formjson"):
 		for k := range c.Ops {
 			if c.OpName == fmt.Sprintf("Op%d", k) && !(c.Anonymous && len(c.Ops) == 1) {
 				sel = k
@@ -386,7 +392,7 @@ func gen(t *rapid.T) Case {
 	c.Ops = perm[:n]
 	c.Anonymous = n == 1 && rapid.Bool().Draw(t, "anon")
 	c.Damage = rapid.SampledFrom([]string{"", "", "", "parse", "validation", "variable"}).Draw(t, "damage")
-	c.Transport = rapid.SampledFrom([]string{"get", "get", "post", "post", "graphql", "urlencoded"}).Draw(t, "transport")
+	c.Transport = rapid.SampledFrom([]string{"get", "get", "post", "post", "graphql", "urlencoded", "formjson"}).Draw(t, "transport")
 	c.QueryCache = rapid.Bool().Draw(t, "querycache")
 	c.Repeat = rapid.SampledFrom([]int{0, 0, 1, 2}).Draw(t, "repeat")
 	switch rapid.IntRange(0, 7).Draw(t, "opname") {
